@@ -76,6 +76,9 @@ def h_existing(I, fi):
         return
     gens = P.ghost.get("generic_indices", [])
     dsl.cover(I, "existing.parent")
+    if not gens:
+        P.check("existing.none-without-top-level-clones", isinstance(out, list) and out == [] and not P.feasible(P.z(base.R) != 0), "a parent without top-level clones has no existing-clone candidate", kind="post")
+        return
     P.check("existing.one-pass-over-top-level-clones", len(gens) == 1 and isinstance(out, list) and len(out) == 1, "one candidate per top-level clone of the parent (arbitrary clone r)", kind="post")
     if len(gens) != 1 or not isinstance(out, list) or len(out) != 1:
         return
